@@ -378,4 +378,107 @@ Proof.
     rewrite Pair. transitivity (Σ (map T (iota 0 (length axes)))); [ring | reflexivity].
 Qed.
 
+(* ---------- curl (three dimensions) ---------- *)
+(* the first derivative of a rotated scalar array in (c, s) form *)
+Lemma dax1_rot_cs (M : cmesh K) a b k g valid (q : idx) y :
+  rot_ok M a b k q -> (y < cm_nd M)%nat ->
+  dax K (rotM K M a b k) 1 y (rot90 (cm_sh M ++ [1%nat]) a b k g) (rot90 (cm_sh M) a b k valid) (q ++ [0%nat])
+  = if (y =? b)%nat
+    then snd (kturn K k) * dax K M 1 a g valid (rho (cm_sh M) a b k q ++ [0%nat])
+         + fst (kturn K k) * dax K M 1 b g valid (rho (cm_sh M) a b k q ++ [0%nat])
+    else if (y =? a)%nat
+    then fst (kturn K k) * dax K M 1 a g valid (rho (cm_sh M) a b k q ++ [0%nat])
+         - snd (kturn K k) * dax K M 1 b g valid (rho (cm_sh M) a b k q ++ [0%nat])
+    else dax K M 1 y g valid (rho (cm_sh M) a b k q ++ [0%nat]).
+Proof.
+  intros Hok Hy. pose proof (ok_ab Hok) as Hab.
+  rewrite (@dax_rot90_cell M a b k y 1%nat g valid q Hok Hy (or_introl eq_refl)).
+  unfold rot_fl, src_ax, msgn, msign, sigma. rewrite <- (odd_mod4 k).
+  destruct (kturn_cases k) as [[H E]|[[H E]|[[H E]|[H E]]]]; rewrite H, E; cbn [fst snd Z.odd];
+    destruct (Nat.eqb_spec y b) as [Eb|Nb]; destruct (Nat.eqb_spec y a) as [Ea|Na];
+    try (exfalso; congruence); subst; cbn [orb]; rewrite ?Nat.eqb_refl; ring.
+Qed.
+
+(* r x = component that is mapped to axis x (a bijection between the three components and the three
+   axes); Field.rotate90 rotates the components v1 = r a and v2 = r b; the curl's own result is mapped
+   identically, so it is rotated in its components a and b *)
+Theorem curl_rot90 (M : cmesh K) a b k v valid (q : idx) r x :
+  rot_ok M a b k q -> cm_nd M = 3%nat -> (x < 3)%nat -> length r = 3%nat ->
+  NoDup r ->
+  curl_v K (rotM K M a b k) r
+         (rot_comp K (fst (kturn K k)) (snd (kturn K k)) (nth a r 0%nat) (nth b r 0%nat)
+                   (rot90 (cm_sh M ++ [3%nat]) a b k v))
+         (rot90 (cm_sh M) a b k valid) (q ++ [x])
+  = rot_comp K (fst (kturn K k)) (snd (kturn K k)) a b
+      (rot90 (cm_sh M ++ [3%nat]) a b k (curl_v K M r v valid)) (q ++ [x]).
+Proof.
+  intros Hok Hnd Hx Lr Hinj.
+  pose proof (@ok_len _ _ _ _ _ Hok) as Hq. pose proof (ok_q Hok) as [Hq' Hr].
+  pose proof (ok_a Hok) as Ha. pose proof (ok_b Hok) as Hb. pose proof (ok_ab Hok) as Hab.
+  set (c := fst (kturn K k)). set (s := snd (kturn K k)).
+  set (v1 := nth a r 0%nat). set (v2 := nth b r 0%nat).
+  set (Rv := rot90 (cm_sh M ++ [3%nat]) a b k v).
+  set (M' := rotM K M a b k). set (valid' := rot90 (cm_sh M) a b k valid).
+  set (rq := rho (cm_sh M) a b k q).
+  set (D := fun y z => dax K M 1 y (comp K (nth z r 0%nat) v) valid (rq ++ [0%nat])).
+  (* injectivity of r on the three axes *)
+  assert (Rinj : forall y z, (y < 3)%nat -> (z < 3)%nat -> nth y r 0%nat = nth z r 0%nat -> y = z).
+  { intros y z Hy Hz E. apply (proj1 (NoDup_nth r 0%nat) Hinj); [lia | lia | exact E]. }
+  (* derivative along y of a rotated component *)
+  assert (E : forall y z, (y < 3)%nat ->
+            dax K M' 1 y (comp K (nth z r 0%nat) Rv) valid' (q ++ [0%nat])
+            = if (y =? b)%nat then s * D a z + c * D b z
+              else if (y =? a)%nat then c * D a z - s * D b z else D y z).
+  { intros y z Hy. unfold D, rq, c, s.
+    rewrite <- (@dax1_rot_cs M a b k (comp K (nth z r 0%nat) v) valid q y Hok) by (rewrite Hnd; exact Hy).
+    apply dax_ext_cells; [unfold M'; rewrite rotM_nd; lia | unfold M'; rewrite rotM_nd; exact Hq |].
+    intros q0 Hq0. unfold M' in Hq0. rewrite rotM_nd in Hq0. apply comp_rot90_cells; assumption. }
+  assert (Rng : forall y, (y < 3)%nat -> (nth y (q ++ [0%nat]) 0 < nth y (cm_sh M') 0)%nat).
+  { intros y Hy. rewrite app_nth1 by lia. apply Hr. unfold M'. fold (cm_nd (rotM K M a b k)). rewrite rotM_nd. lia. }
+  (* derivative along y of component (r z) of the rotated FIELD *)
+  assert (Fz : forall y z, (y < 3)%nat -> (z < 3)%nat ->
+            dax K M' 1 y (comp K (nth z r 0%nat) (rot_comp K c s v1 v2 Rv)) valid' (q ++ [0%nat])
+            = if (z =? b)%nat
+              then s * dax K M' 1 y (comp K v1 Rv) valid' (q ++ [0%nat]) + c * dax K M' 1 y (comp K v2 Rv) valid' (q ++ [0%nat])
+              else if (z =? a)%nat
+              then c * dax K M' 1 y (comp K v1 Rv) valid' (q ++ [0%nat]) + fopp s * dax K M' 1 y (comp K v2 Rv) valid' (q ++ [0%nat])
+              else dax K M' 1 y (comp K (nth z r 0%nat) Rv) valid' (q ++ [0%nat])).
+  { intros y z Hy Hz.
+    assert (My : (y < cm_nd M')%nat) by (unfold M'; rewrite rotM_nd; lia).
+    assert (Lq : length q = cm_nd M') by (unfold M'; rewrite rotM_nd; exact Hq).
+    destruct (Nat.eqb_spec z b) as [Zb|Zb]; [|destruct (Nat.eqb_spec z a) as [Za|Za]].
+    - rewrite <- dax_lin by (try exact My; apply Rng; exact Hy).
+      apply dax_ext_cells; [exact My | exact Lq |].
+      intros q0 _. unfold comp, rot_comp. rewrite !removelast_app1, last_app1. subst z. fold v2.
+      rewrite Nat.eqb_refl. reflexivity.
+    - rewrite <- dax_lin by (try exact My; apply Rng; exact Hy).
+      apply dax_ext_cells; [exact My | exact Lq |].
+      intros q0 _. unfold comp, rot_comp. rewrite !removelast_app1, last_app1. subst z. fold v1.
+      destruct (Nat.eqb_spec v1 v2) as [C|_]; [exfalso; apply Hab; apply Rinj; try lia; exact C|].
+      rewrite Nat.eqb_refl. ring.
+    - apply dax_ext_cells; [exact My | exact Lq |].
+      intros q0 _. unfold comp, rot_comp. rewrite !removelast_app1, last_app1.
+      destruct (Nat.eqb_spec (nth z r 0%nat) v2) as [C|_]; [exfalso; apply Zb; apply Rinj; try lia; exact C|].
+      destruct (Nat.eqb_spec (nth z r 0%nat) v1) as [C|_]; [exfalso; apply Za; apply Rinj; try lia; exact C|].
+      reflexivity. }
+  (* the curl of the source field at the source cell, by axis *)
+  assert (C0 : forall y, (y < 3)%nat ->
+            rot90 (cm_sh M ++ [3%nat]) a b k (curl_v K M r v valid) (q ++ [y])
+            = D ((y + 1) mod 3)%nat ((y + 2) mod 3)%nat - D ((y + 2) mod 3)%nat ((y + 1) mod 3)%nat).
+  { intros y Hy. rewrite rot90_app by (try assumption; exact Hq). unfold curl_v.
+    rewrite last_app1, cell0_app. reflexivity. }
+  unfold curl_v at 1. rewrite last_app1, cell0_app.
+  rewrite !Fz by (try apply Nat.mod_upper_bound; lia).
+  unfold rot_comp at 1. rewrite last_app1, removelast_app1.
+  rewrite !C0 by lia.
+  unfold v1, v2. rewrite !E by (try apply Nat.mod_upper_bound; lia).
+  clear E Fz C0 Rng.
+  assert (A3 : (a < 3)%nat) by lia. assert (B3 : (b < 3)%nat) by lia.
+  unfold c, s.
+  destruct (kturn_cases k) as [[H E]|[[H E]|[[H E]|[H E]]]]; rewrite E; cbn [fst snd];
+    destruct a as [|[|[|a]]]; try lia; destruct b as [|[|[|b]]]; try lia; try (exfalso; apply Hab; reflexivity);
+    destruct x as [|[|[|x]]]; try lia;
+    cbn [Nat.add Nat.modulo Nat.divmod fst snd Nat.sub Nat.eqb]; ring.
+Qed.
+
 End Commute.
